@@ -51,7 +51,7 @@ func (i *impl) reset() string {
 	i.b = broker.New()
 	i.b.Auto["call"] = false
 	i.b.Register()
-	conn, err := iscp.Connect("mem", broker.TransportName, iscp.WithConnPingInterval(20*time.Millisecond), iscp.WithConnPingTimeout(2*time.Second))
+	conn, err := iscp.Connect("mem", broker.TransportName, iscp.WithConnPingInterval(20*time.Millisecond), iscp.WithConnPingTimeout(400*time.Millisecond))
 	if err != nil {
 		return "err"
 	}
